@@ -226,6 +226,25 @@ class ExpressionTransformer:
                 f"At line {node.lineno}, col {node.col_offset}: "
                 f"Unable to convert node '{type(node).__name__}'"
             )
+        if (
+            isinstance(node, Call)
+            and isinstance(node.func, Name)
+            and node.func.id == "super"
+            and not node.args
+            and not node.keywords
+            and getattr(self.nsp, "is_method", False)
+            and getattr(self.nsp, "first_positional_parameter", None) is not None
+        ):
+            # Loops become comprehensions, which are functions of their own on
+            # runtimes before 3.12: spell out what a zero-argument super() means
+            node = Call(
+                func=node.func,
+                args=[
+                    Name(id="__class__", ctx=Load()),
+                    Name(id=self.nsp.first_positional_parameter, ctx=Load()),  # type: ignore
+                ],
+                keywords=[],
+            )
         if isinstance(node, NamedExpr):
             return PendingNamedExpr(node, self.nsp)
         elif isinstance(node, Name):
